@@ -603,7 +603,8 @@ func toSendLargeFileOptions(opts *pb.FileOptions) (*types.SendLargeFileOptions, 
 func toSendLargeFileChunks(file types.LinuxFile, ids []string) []*types.SendLargeFileOptions {
 	maxChunkSize := types.SendLargeFileChunkSize
 	ret := make([]*types.SendLargeFileOptions, 0)
-	for idx := 0; idx < len(file.Content); idx += maxChunkSize {
+	// an empty file still is a file: send one empty chunk
+	for idx := 0; idx == 0 || idx < len(file.Content); idx += maxChunkSize {
 		sendLargeFileOptions := &types.SendLargeFileOptions{
 			IDs:  ids,
 			Dst:  file.Filename,
